@@ -12,7 +12,8 @@ d = V / "seeded" / ("%s-%s" % (pid, n))
 d.mkdir(parents=True, exist_ok=True)
 for f in [p.name for p in mdir.iterdir() if p.is_file() and p.suffix in (".diff", ".c", ".sh", ".txt", ".h", ".py")]:
     if (mdir / f).exists():
-        shutil.copy(mdir / f, d / f)
+        if (mdir / f).resolve() != (d / f).resolve():
+            shutil.copy(mdir / f, d / f)
 r = json.loads(log.read_text())
 notes = (mdir / "notes.txt").read_text() if (mdir / "notes.txt").exists() else ""
 meta = {
